@@ -212,6 +212,20 @@ def body_functional(c, ctx):
         k = 1 + c['extra'] % 2
         if m.nelements * (2 ** d) ** k > 400 or (where != 'subdomain' and (d == 3 or not desc['cls'].endswith('1'))):
             return
+        if where == 'subdomain' and kind in ('line', 'tri', 'tet') and desc['cls'].endswith('1') and len(c['picks']) % 2 == 0:
+            # adaptive instead of uniform: the marked cells (and what the closure adds) are split, possibly twice
+            marked = np.array(sorted({int(q) % m.nelements for q in c['picks'][:3]}), dtype=np.int64)
+            import warnings
+            with warnings.catch_warnings():
+                warnings.simplefilter('ignore')
+                m2 = mm.refined(marked)
+                if c['extra'] == 2 and m2.nelements < 200:
+                    m2 = m2.refined(np.arange(0, m2.nelements, 3, dtype=np.int64))
+            b2 = CellBasis(m2, getattr(skfem, P1[kind])(), intorder=order, elements='omega')
+            got2 = float(Functional(integrand).assemble(b2))
+            ctx.cls('named_region_refined_adaptively')
+            ctx.close('metamorphic_refine_named', got2, got, 5e-11, scale, levels=0, **sig)
+            return
         import warnings
         with warnings.catch_warnings():
             warnings.simplefilter('ignore')
